@@ -84,8 +84,16 @@ Lemma pcall_noarg_lemma n fr s : builtin_call (S n) fr BPcall [] s = Err (VFault
 Proof. reflexivity. Qed.
 
 (* ---------- xpcall ---------- *)
+(* an error raised by the message handler itself is caught too: Lua 5.1 reports LUA_ERRERR with
+   the message "error in error handling" (the deviation switch dv_handler_err delivers the
+   handler's own error value instead) *)
+Definition xp_handler_failed (e2 : value) (s2 : state) : res (list value) :=
+  if dv_handler_err (dv s2) then Ret [VBool false; e2] s2
+  else Ret [VBool false; VStr s_error_in_error_handling] s2.
+
 Definition xp_handler (n : nat) (fr : list frame) (h : value) (e : value) (s : state) : res (list value) :=
-  bind (call n (pframes fr) h [e] s) (fun hv s'' => Ret [VBool false; first hv] s'').
+  catch (bind (call n (pframes fr) h [e] s) (fun hv s'' => Ret [VBool false; first hv] s''))
+        xp_handler_failed.
 
 (* C05 xpcall_handler_once: xpcall is [handle] of the callee with the handler applied — once, to
    the error value, in the state at the error point — at each error leaf; the handler's own
@@ -101,15 +109,14 @@ Qed.
 
 Lemma xpcall_of_err_lemma n fr args s e s1 :
   call n (pframes fr) (nth 0 args VNil) [] s = Err e s1 ->
-  builtin_call (S n) fr BXpcall args s =
-  bind (call n (pframes fr) (nth 1 args VNil) [e] s1) (fun hv s'' => Ret [VBool false; first hv] s'').
+  builtin_call (S n) fr BXpcall args s = xp_handler n fr (nth 1 args VNil) e s1.
 Proof. intros H. rewrite bi_xpcall. unfold pframes in *. rewrite H. reflexivity. Qed.
 
 Lemma xpcall_of_err_ret_lemma n fr args s e s1 hv s2 :
   call n (pframes fr) (nth 0 args VNil) [] s = Err e s1 ->
   call n (pframes fr) (nth 1 args VNil) [e] s1 = Ret hv s2 ->
   builtin_call (S n) fr BXpcall args s = Ret [VBool false; first hv] s2.
-Proof. intros H H2. rewrite (xpcall_of_err_lemma _ _ _ _ _ _ H), H2. reflexivity. Qed.
+Proof. intros H H2. rewrite (xpcall_of_err_lemma _ _ _ _ _ _ H). unfold xp_handler. rewrite H2. reflexivity. Qed.
 
 Lemma xpcall_of_ret_lemma n fr args s vs s' :
   call n (pframes fr) (nth 0 args VNil) [] s = Ret vs s' ->
@@ -126,17 +133,23 @@ Proof.
   simpl nth. induction Hn; simpl; constructor; auto.
 Qed.
 
-(* xpcall contains every error as long as the handler itself does not fail; a failing handler's
-   error is what escapes (Lua 5.1 reports LUA_ERRERR; the status is an error in both) *)
-Lemma xpcall_contains_lemma n fr args s :
-  (forall e s', never_err (call (pred n) (pframes fr) (nth 1 args VNil) [e] s')) ->
-  never_err (builtin_call n fr BXpcall args s).
+(* xpcall contains every error, also those of the handler (which leave the fragment) *)
+Lemma xpcall_contains_lemma n fr args s : never_err (builtin_call n fr BXpcall args s).
 Proof.
-  intros Hh. destruct n as [|n]; [constructor|]. simpl pred in Hh.
+  destruct n as [|n]; [constructor|].
   eapply never_err_req_lemma; [apply req_sym_lemma; apply xpcall_handle_lemma|].
   apply handle_never_err_lemma.
   - intros a s'. constructor.
-  - intros v s'. unfold xp_handler. apply bind_never_err_lemma; auto. intros a s''. constructor.
+  - intros v s'. unfold xp_handler. apply catch_never_err_lemma. intros v2 s2. unfold xp_handler_failed.
+    destruct (dv_handler_err (dv s2)); constructor.
+Qed.
+
+(* as long as the handler does not fail its result is delivered as is *)
+Lemma xp_handler_ok_lemma n fr h e s :
+  never_err (call n (pframes fr) h [e] s) ->
+  req (xp_handler n fr h e s) (bind (call n (pframes fr) h [e] s) (fun hv s'' => Ret [VBool false; first hv] s'')).
+Proof.
+  intros H. unfold xp_handler. apply catch_of_never_err_lemma. apply bind_never_err_lemma; auto. intros; constructor.
 Qed.
 
 (* ---------- error ---------- *)
@@ -168,7 +181,7 @@ Qed.
 (* a string raised at level 1 from a Lua frame gains that frame's position *)
 Lemma error_string_level1_lemma n cl l rest m s :
   builtin_call (S n) ((Some l, cl) :: rest) BError [VStr m] s = Err (VStr (pos_prefix l ++ m)) s.
-Proof. cbn [builtin_call]. unfold bindM; simpl. destruct (dv_errlevel (dv s)); reflexivity. Qed.
+Proof. reflexivity. Qed.
 
 (* error and assert never return normally: `error` has no Ret leaf *)
 Inductive never_ret {A} : res A -> Prop :=
@@ -177,19 +190,23 @@ Inductive never_ret {A} : res A -> Prop :=
 | nr_unsup c : never_ret (Unsup c)
 | nr_eff e s k : (forall rp s', never_ret (k rp s')) -> never_ret (Eff e s k).
 
+Lemma never_ret_bind_lemma {A B} (r : res A) (f : A -> state -> res B) :
+  (forall a s, never_ret (f a s)) -> never_ret (bind r f).
+Proof. intros Hf. induction r; simpl; try constructor; auto. Qed.
+
+Ltac nr_tac :=
+  repeat (cbv beta zeta;
+    lazymatch goal with
+    | |- never_ret (bindM _ _ _) => unfold bindM at 1; apply never_ret_bind_lemma; intros ? ?
+    | |- never_ret (bind _ _) => apply never_ret_bind_lemma; intros ? ?
+    | |- never_ret (match ?x with _ => _ end) => destruct x
+    | |- never_ret (match ?x with _ => _ end _) => destruct x
+    | |- never_ret (if ?x then _ else _) => destruct x
+    | |- never_ret ((if ?x then _ else _) _) => destruct x
+    | |- never_ret _ => first [ apply nr_err | apply nr_fuel | apply nr_unsup ]
+    end).
+
 Lemma error_never_returns_lemma n fr args s : never_ret (builtin_call n fr BError args s).
 Proof.
-  destruct n as [|n]; [constructor|]. cbn [builtin_call]. unfold bindM at 1.
-  destruct (nth 1 args VNil); simpl; try constructor.
-  - unfold bindM. simpl. destruct (nth 0 args VNil); simpl; try constructor.
-    + unfold num_text. destruct (f_to_text f); simpl; try constructor.
-      destruct (nth_error fr (Z.to_nat _)) as [[[l|] ?]|]; constructor.
-    + destruct (nth_error fr (Z.to_nat _)) as [[[l|] ?]|]; constructor.
-  - destruct (f_to_Z f); simpl; try constructor. unfold bindM; simpl.
-    destruct (nth 0 args VNil); simpl; try constructor.
-    + destruct (z <=? 0); try constructor. unfold bindM, num_text. destruct (f_to_text f0); simpl; try constructor.
-      destruct (nth_error fr (Z.to_nat _)) as [[[l|] ?]|]; constructor.
-    + destruct (z <=? 0); try constructor.
-      destruct (nth_error fr (Z.to_nat _)) as [[[l|] ?]|]; constructor.
-    + destruct (z <=? 0); constructor.
+  destruct n as [|n]; [constructor|]. cbn [builtin_call]. unfold raise, unsup, num_text. nr_tac.
 Qed.
